@@ -4,6 +4,7 @@ original and the repaired HEAD) and compare the written blockMeshDicts as geomet
 by one of the `fix:` commits (the original was wrong there); anything else would be a regression caused by a repair.
 
   tools/examples_diff.py <original src dir> <head src dir> [glob]
+  (the pinned tree: `git -C /repo worktree add --detach /tmp/base 6d7149d`, then /tmp/base/src; remove the worktree afterwards)
 """
 import fnmatch
 import glob
